@@ -142,7 +142,10 @@ func (r *Runner) monBln(s *Step, rep *Reply) {
 			for _, ids := range b.Pods {
 				for _, id := range ids {
 					if c := r.M.CtrByID(id); c != nil {
-						sum += sharesToMilli(MilliCPUToShares(int64(c.ReqMilli)))
+						// the kubelet encoding (shares, quota) gives a request back to within 1-2 mCPU (C20): a lower bound
+						if m := sharesToMilli(MilliCPUToShares(int64(c.ReqMilli))) - 2; m > 0 {
+							sum += m
+						}
 					}
 				}
 			}
